@@ -65,6 +65,11 @@ claimed = {
    technique='exhaustive depth-bounded enumeration of operation histories on the real authenticated map/set over mapdb against a plain map model plus a differential content-only-root oracle',
    text='Every history up to depth 5 (map; 18 operations) / 6 (set; 10 operations), thorough +1, of Set/Add, Delete, Commit and Reopen (clean state only) over 4 keys (two sharing the first byte of their SHA-256 path) and values empty/a/b. After every step: Get/Has of every key, Size, Stream, Delete results equal the model; Root equals the root of a fresh instance built from the same contents in canonical order (so equal contents reached through any history give equal roots) and distinct contents have distinct roots; after Reopen root, size, contents are unchanged and WasRestoredFromStorage == (a Commit happened).',
    note='Trusted: plain-map model; pokt-network/smt is exercised as part of the system, not modelled. Reopen only after Commit/pristine.', ref='2 C09'),
+
+ 'C13': dict(cat='model_checking', engine='S',
+   technique='stateless model checking of the real reactive primitives under a controlled scheduler (preemption-bounded DFS with state cache; thorough: all interleavings where the cache completes)',
+   text='8 scenarios on reactive Variable, Event and Set: two or three concurrent writers (Set/Compute/Add/Apply/Replace/Delete/Trigger) with a subscriber present from the start and a subscriber that subscribes (with/without zero-value trigger) and unsubscribes concurrently; callbacks yield so overlapping executions are possible. Every interleaving with <= 2 (thorough 3) preemptions is executed. Oracle per subscription: the first callback starts from the zero value, each prev equals the preceding new, last new == final Get, folding the reported set mutations == final contents, callbacks of one subscription never overlap, none starts after its unsubscribe returned, event handlers run exactly once, no deadlock.',
+   note='Trusted: shim fidelity; fold tolerates an element reported as added although already present (Replace). The reactive Set.Replace diff defect of the design phase is repaired by the ds.Set.Replace fix (C11).', ref='2 C13'),
 }
 na_reason = 'check not built yet in this round (engine exists; see DESIGN.md section 9 for the order of work)'
 checks = []
